@@ -243,7 +243,6 @@ Proof.
     + f_equal. rewrite S1. apply firstn_exact. lia.
     + rewrite skipn_add, S1. apply skipn_exact. reflexivity.
 Qed.
-Print Assumptions get_next_word_spec.
 
 (* a non-empty word consumes at least one character *)
 Corollary get_next_word_progress l p w : get_next_word l = (p, w) -> w <> [] -> 1 <= p <= List.length l.
@@ -290,7 +289,6 @@ Proof.
   destruct (words_from_enough txt (S (List.length txt)) p w) as [ws E]; [lia| |rewrite E; reflexivity].
   intros NE. pose proof (get_next_word_progress _ _ _ GN NE). lia.
 Qed.
-Print Assumptions words_from_total.
 
 (* every word that format_text sees is non-empty, has no space outside braces, and is either exactly a break code or
    contains no break code at brace level 0 *)
@@ -319,7 +317,6 @@ Proof.
   pose proof (words_from_total txt) as WT. destruct (get_next_word txt) as [p w] eqn:GN.
   eapply words_from_good; [exact WT|]. apply (get_next_word_good _ _ _ GN).
 Qed.
-Print Assumptions words_of_good.
 
 (* ------------------------------------------------------------------------------------------------------------- *)
 (* (2) character-level preservation                                                                               *)
@@ -409,7 +406,6 @@ Proof.
   - destruct (words_from_chars txt _ _ _ _ WT ltac:(intros X; congruence)) as (rest' & DR & EC).
     destruct (HR rest' DR) as (R' & DR' & ER'). exists R'. split; [exact DR'|]. rewrite EC, ER'. reflexivity.
 Qed.
-Print Assumptions words_keep_characters.
 
 (* ... and exactly the non-space characters (spaces inside braces kept) when the text has no two adjacent backslashes *)
 Theorem words_are_the_nonspace_characters txt :
@@ -417,7 +413,6 @@ Theorem words_are_the_nonspace_characters txt :
 Proof.
   intros NB. destruct (words_keep_characters txt) as (txt' & D & E). rewrite E. f_equal. symmetry. apply dropbs_exact; assumption.
 Qed.
-Print Assumptions words_are_the_nonspace_characters.
 
 (* the hypothesis is needed: of two adjacent backslashes that begin a word, the first is lost *)
 Example double_backslash_loses_a_character :
@@ -529,7 +524,6 @@ Proof.
     cbn [lastl lwords] in X. rewrite <- HD in X. exact X.
 Qed.
 End SRC.
-Print Assumptions layout_keeps_tokens.
 
 (* ------------------------------------------------------------------------------------------------------------- *)
 (* (1') the two theorems of FmtRefine.v without the fuel hypothesis                                               *)
@@ -558,7 +552,6 @@ Theorem format_text_refines_total fc txt0 maxW cursor fontID numLines :
   format_text fc txt0 maxW cursor fontID numLines =
     Some (print_lines (layout text (fun w => word_width fc w fontID) spaceW maxW cursor numLines (map classify (words_of txt)))).
 Proof. intros txt spaceW. apply format_text_refines. apply words_from_total. Qed.
-Print Assumptions format_text_refines_total.
 
 Theorem format_text_lines_fit_total fc txt0 maxW cursor fontID numLines out :
   let txt := map (fun c => if (c =? 10)%N then 32%N else c) txt0 in
@@ -568,7 +561,6 @@ Theorem format_text_lines_fit_total fc txt0 maxW cursor fontID numLines out :
   exists ls, out = print_lines ls /\
     Forall2 (fun i l => line_ok text width spaceW maxW cursor numLines i l /\ disc_ok text numLines i l) (indices text 0 ls) ls.
 Proof. intros txt spaceW width. apply (format_text_lines_fit fc txt0 maxW cursor fontID numLines (words_of txt)). apply words_from_total. Qed.
-Print Assumptions format_text_lines_fit_total.
 
 (* ------------------------------------------------------------------------------------------------------------- *)
 (* (3) from the source text to the output text                                                                    *)
@@ -649,7 +641,6 @@ Proof.
   split; [exact LS|]. split; [eapply lines_src_chars; [exact LS|reflexivity]|].
   split; [apply words_keep_characters|apply words_are_the_nonspace_characters].
 Qed.
-Print Assumptions format_text_from_source.
 
 (* the plain reading: a text without adjacent backslashes and without the word \N comes out with exactly its own
    characters, the spaces outside braces replaced by single spaces or by inserted breaks *)
@@ -666,7 +657,6 @@ Proof.
   inversion NN as [|? ? N1 N2]; subst. f_equal; [|apply IH, N2].
   destruct R as [R|(R & _)]; [exact R|congruence].
 Qed.
-Print Assumptions format_text_same_characters.
 
 (* the hypotheses are satisfiable on a non-trivial input (control code with a space, explicit \n and \p, a forced wrap) *)
 Example format_text_same_characters_example :
